@@ -1318,8 +1318,9 @@ def evaluate__from_date_functions(self: XPathFunction, context: ta.ContextType =
     elif item.tzinfo is None:
         return []
 
-    dt_ = datetime.datetime(year=max(item.year, 0), month=item.month, day=item.day)
-    offset = item.tzinfo.utcoffset(dt_)
+    # the offset of an XSD timezone is fixed: no need of a datetime, that
+    # cannot be built for BCE years or for years after 9999
+    offset = item.tzinfo.utcoffset(None)
     if offset is None:
         return []
 
